@@ -287,6 +287,9 @@ func runStopDuringClose() (*cloObs, string) {
 // kind 0: another connection takes the client id over (C10: the CONNECT must be answered)
 // kind 1: the broker is stopped (C20: Stop must return)
 // kind 2: the client is silent beyond its keep-alive (C19/C11: the connection must end, the Will be published)
+// kind 3: not stalled but SLOW: a v5 client that keeps reading (64 bytes per millisecond) while 30 KB are on their way
+//         to it is taken over (C10: the new CONNECT is answered; the old connection gets "DISCONNECT 'session taken
+//         over'" - as a packet: everything it is sent decodes, and that DISCONNECT is the last thing before the end)
 
 type stallObs struct {
 	OK     bool `json:"ok"`     // CONNACK for the new connection / Stop returned / Will seen
@@ -294,6 +297,9 @@ type stallObs struct {
 }
 
 func runStalled(kind int) (*stallObs, string) {
+	if kind == 3 {
+		return runSlowTakeover()
+	}
 	obs := &stallObs{}
 	b, err := NewBroker(BrokerOpts{Preempt: true})
 	if err != nil {
@@ -402,4 +408,68 @@ func stopRace(clients int) string {
 	b.ShutdownTopics()
 	b.Drop2()
 	return ""
+}
+
+func runSlowTakeover() (*stallObs, string) {
+	obs := &stallObs{}
+	b, err := NewBroker(BrokerOpts{Preempt: true})
+	if err != nil {
+		return obs, err.Error()
+	}
+	defer b.Drop()
+	c := b.DialCap(64)
+	if _, err := c.Connect(ConnectOpts{ID: "slow", Ver: mqttp.ProtocolV50, Clean: true}); err != nil {
+		return obs, "connect: " + err.Error()
+	}
+	a := c.Auto(false)
+	_ = a.SendL(mkSubscribe(mqttp.ProtocolV50, 9, []string{"t"}, []byte{0}))
+	if !a.WaitFor(5*time.Second, func() bool { return len(a.Others) >= 1 }) {
+		return obs, "no suback"
+	}
+	c.conn.(*bufConn).SetReadPause(time.Millisecond)
+	pc := b.Dial()
+	if _, err := pc.Connect(ConnectOpts{ID: "sp", Ver: mqttp.ProtocolV311, Clean: true}); err != nil {
+		return obs, "publisher: " + err.Error()
+	}
+	pa := pc.Auto(false)
+	payload := make([]byte, 100)
+	for i := range payload {
+		payload[i] = 'x'
+	}
+	for i := 0; i < 300; i++ {
+		_ = pa.SendL(mkPublish(mqttp.ProtocolV311, "t", payload, 0, false, 0))
+	}
+	// the take-over arrives while the old connection's writer is in the middle of that backlog
+	if !a.WaitFor(5*time.Second, func() bool { return len(a.Pubs) >= 5 }) {
+		return obs, "nothing delivered"
+	}
+	c2 := b.Dial()
+	_, err = c2.Connect(ConnectOpts{ID: "slow", Ver: mqttp.ProtocolV50, Clean: true})
+	connack := err == nil
+	// the old connection: read to its end
+	if !a.WaitFor(8*time.Second, func() bool { return a.closed }) {
+		return obs, "old connection not closed"
+	}
+	obs.Closed = true
+	a.mu.Lock()
+	defer a.mu.Unlock()
+	last := mqttp.IFace(nil)
+	if len(a.Seq) > 0 {
+		last = a.Seq[len(a.Seq)-1]
+	}
+	told := false
+	if d, ok := last.(*mqttp.Disconnect); ok && d.ReasonCode() == mqttp.CodeSessionTakenOver {
+		told = true
+	}
+	clean := a.EndErr == "" && len(a.Client.buf) == 0
+	for _, m := range a.Pubs {
+		if len(m.Payload()) != 100 {
+			clean = false
+		}
+	}
+	obs.OK = connack && told && clean
+	if !obs.OK {
+		return obs, fmt.Sprintf("connack=%v told=%v clean=%v enderr=%q dangling=%d packets=%d", connack, told, clean, a.EndErr, len(a.Client.buf), len(a.Seq))
+	}
+	return obs, ""
 }
